@@ -45,6 +45,8 @@ def render_ty(t):
         return "Vec<%s>" % render_ty(t[1])
     if k == "qvec":
         return "std::vec::Vec<%s>" % render_ty(t[1])
+    if k == "qalt":   # the same constructors spelled through core / alloc / a module-relative path
+        return QALT[t[1]][0] % tuple(render_ty(x) for x in t[2])
     if k == "array":
         return "[%s; %d]" % (render_ty(t[1]), t[2])
     if k == "slice":
@@ -77,6 +79,9 @@ def render_ty(t):
     raise KeyError(k)
 
 
+QALT = {"core_option": ("core::option::Option<%s>", "Option"), "abs_core_option": ("::core::option::Option<%s>", "Option"), "rel_option": ("option::Option<%s>", "Option"),
+        "alloc_vec": ("alloc::vec::Vec<%s>", "Vec"), "rel_vec": ("vec::Vec<%s>", "Vec"), "rel_map": ("collections::HashMap<%s, %s>", "HashMap"),
+        "hash_map_map": ("std::collections::hash_map::HashMap<%s, %s>", "HashMap"), "alloc_box": ("alloc::boxed::Box<%s>", None), "alloc_string": ("alloc::string::String", "String")}
 QUALIFIED_PTR = {"Box": "std::boxed::Box", "Arc": "std::sync::Arc", "Rc": "::std::rc::Rc", "Cow": "std::borrow::Cow", "Cell": "std::cell::Cell", "RefCell": "cell::RefCell",
                  "Mutex": "sync::Mutex", "RwLock": "std::sync::RwLock", "Weak": "std::sync::Weak"}
 
@@ -86,6 +91,11 @@ def oracle(t):
     k = t[0]
     if k == "qptr":
         return oracle(t[2])
+    if k == "qalt":
+        name = QALT[t[1]][1]
+        if name is None:
+            return oracle(t[2][0])
+        return ("special", name) + tuple(oracle(x) for x in t[2])
     if k == "qoption":
         return ("special", "Option", oracle(t[1]))
     if k == "qmap":
@@ -169,6 +179,8 @@ def unary(t, with_ptrs):
     for p in (PTRS if with_ptrs else ["Arc"]):
         out.append(("qptr", p, t))
     out += [("qoption", t), ("qmap", ("qprim",), t)]
+    out += [("qalt", "core_option", (t,)), ("qalt", "abs_core_option", (t,)), ("qalt", "rel_option", (t,)), ("qalt", "alloc_vec", (t,)), ("qalt", "rel_vec", (t,)),
+            ("qalt", "rel_map", (("qalt", "alloc_string", ()), t)), ("qalt", "hash_map_map", (("prim", "String"), t)), ("qalt", "alloc_box", (t,))]
     return out
 
 
@@ -426,15 +438,18 @@ def case_mapping(case):
         ky = [z3.BitVec("k%d" % i, 32) for i in range(3)]
         return nm, ky
 
+    has_prefix = bool(prefix and lang in ("swift", "kotlin"))
+    pf = [z3.BitVec("p0", 32), z3.BitVec("p1", 32)]   # the configured prefix: symbolic, so that a name may begin with it
+
     def entry(I):
         nm, ky = syms()
-        for cs in (nm, ky):
+        for cs in (nm, ky, pf):
             I.assume(z3.And(z3.UGE(cs[0], 65), z3.ULE(cs[0], 90)))
             for c in cs[1:]:
                 I.assume(z3.And(z3.UGE(c, 97), z3.ULE(c, 122)))
         cfg = {"type_mappings": {RString(list(ky)): S("Mapped")}}
-        if prefix and lang in ("swift", "kotlin"):
-            cfg["prefix"] = "OP"
+        if has_prefix:
+            cfg["prefix"] = RString(list(pf))
         lg = bharness.make_lang(I, lang, cfg)
         gens = [RString(list(nm))] if generic_named else ["T"]
         t = ir.simple(RString(list(nm)))
@@ -468,7 +483,8 @@ def case_mapping(case):
             continue
         text = r.fields[0].chars
         same = z3.And([a == b for a, b in zip(nm, ky)])
-        pre = "OP" if (prefix and lang in ("swift", "kotlin")) else ""
+        pre = "\ue100\ue101" if has_prefix else ""
+        conv = lambda txt: [pf[0] if ch == "\ue100" else pf[1] if ch == "\ue101" else ord(ch) for ch in txt]
         wrapname = pre + "Wrap"
         tpl = {"plain": "{0}", "vec": TEMPLATES[lang]["vec"], "option": TEMPLATES[lang]["option"], "map_value": TEMPLATES[lang]["map"].replace("{0}", KEY_STRING[lang]).replace("{1}", "{0}"),
                "generic_arg": TEMPLATES[lang]["generic"].replace("{n}", wrapname).replace("{a}", "{0}"),
@@ -480,20 +496,20 @@ def case_mapping(case):
         a, b = tpl.split("{0}")
 
         def expect(inner):
-            return [ord(c) for c in a] + inner + [ord(c) for c in b]
+            return conv(a) + inner + conv(b)
         mapped = expect([ord(c) for c in "Mapped"])
         if generic_named:
             # a generic parameter is never prefixed; a mapping for its name is not in the claim (left to either outcome)
             unm = expect(list(nm))
             okc = z3.Or(z3.And(same, z3.BoolVal(True)), as_bool(seq_eq(I, text, unm)))
         else:
-            unm = expect([ord(c) for c in pre] + list(nm))
+            unm = expect(conv(pre) + list(nm))
             okc = z3.If(same, as_bool(seq_eq(I, text, mapped)), as_bool(seq_eq(I, text, unm)))
         m = I.sat_model(z3.Not(okc))
         if m is not None:
             ev = lambda cs: "".join(chr(m.eval(c, model_completion=True).as_long()) for c in cs)
             got = "".join(chr(c) if isinstance(c, int) else chr(m.eval(c, model_completion=True).as_long()) for c in text)
-            res["violations"].append({"kind": "mapping", "name": ev(nm), "key": ev(ky), "got": got})
+            res["violations"].append({"kind": "mapping", "name": ev(nm), "key": ev(ky), "got": got, "prefix": ev(pf) if has_prefix else ""})
     return finish_case(I, res)
 
 
@@ -719,13 +735,13 @@ def native_b(nat, gname, case, v):
     src = "#[typeshare]\npub type A%s = Vec<%s>;\n" % (g, ty)
     cfg["type_mappings"] = {key: "Mapped"}
     if prefix:
-        cfg["prefix"] = "OP"
+        cfg["prefix"] = v.get("prefix") or "OP"
     r = nat.ask({"op": "generate", "lang": lang, "files": [{"source": src}], "config": cfg})
     out = r.get("out", {}).get("", None)
     if out is None:
         return None, str(r)[:200], None
     if v["got"] in out:
-        return True, "%s with type_mappings {%s: Mapped}%s translates `%s` to `%s`" % (lang, key, " and prefix OP" if prefix else "", ty, v["got"]), {"source": src, "lang": lang, "config": cfg, "needle": v["got"]}
+        return True, "%s with type_mappings {%s: Mapped}%s translates `%s` to `%s`" % (lang, key, (" and prefix %s" % cfg["prefix"]) if prefix else "", ty, v["got"]), {"source": src, "lang": lang, "config": cfg, "needle": v["got"]}
     return False, "%r not in real output %r" % (v["got"], out[:300]), None
 
 
